@@ -195,6 +195,29 @@ def sym_case(draw, tier, allow_mismatch=False, min_order=1):
         pos = draw(st.integers(0, n - 1))
         sub = ref.all_subs_F(shape)[pos]
         A[sub] = A[sub] + (1.0 if vkind == "int" else 0.5)
+    near = None
+    if (not mismatch and any(len(g) >= 2 for g in groups) and draw(st.integers(0, 3)) == 0):
+        # (round 3) near-special values: exactly symmetric in every group, then relative noise of size delta on every
+        # entry of the classes of one, some or all groups - symmetric up to 1e-16 .. 1e-5, never exactly.  Any
+        # tolerance-based shortcut ("already symmetric") goes wrong here while the exact definitions do not.
+        delta = draw(st.sampled_from([2.3e-16, 1e-14, 1e-12, 1e-10, 1e-8, 1e-6, 1e-5]))
+        big = [i for i, g in enumerate(groups) if len(g) >= 2]
+        which = draw(st.sampled_from(["all", "one", "some"]))
+        if which == "one":
+            noisy = [draw(st.sampled_from(big))]
+        elif which == "some":
+            noisy = sorted(set(draw(st.lists(st.sampled_from(big), min_size=1, max_size=len(big)))))
+        else:
+            noisy = list(big)
+        phase = draw(st.integers(0, 1000))
+        vkind = "float"
+        B = make_symmetric(np.where(A == 0, 1.5, A), groups)  # (no zeros: relative noise must change every entry)
+        # noise that is itself symmetric in the groups that stay exact and generic in the noisy ones
+        E = np.cos(phase + 1.7 * np.arange(n) + 0.3 * np.arange(n) ** 2).reshape(shape, order="F")
+        E = make_symmetric(E, [g for i, g in enumerate(groups) if i not in noisy])
+        A = B * (1.0 + delta * E)
+        dclass = "near-symmetric"
+        near = dict(delta=delta, which=which, noisy=noisy)
     forms = ["2d"]
     if len(groups) == 1:
         forms.append("1d")
@@ -208,8 +231,11 @@ def sym_case(draw, tier, allow_mismatch=False, min_order=1):
     if vkind == "int" and draw(st.integers(0, 2)) == 0:
         out["dt"] = "int64"
     out["gdtype"] = draw(st.sampled_from(["int64", "int64", "int32", "uint8"]))
+    if near:
+        out["near"] = near
     if vkind == "float" and draw(st.integers(0, 2)) == 0:
-        sc = draw(st.sampled_from([1e6, 1e-6]))
+        # (round 3: also whole tensors of magnitude 1e-9 .. 1e-12, below every absolute tolerance)
+        sc = draw(st.sampled_from([1e6, 1e-6, 1e-9, 1e-10, 1e-12]))
         out["scale"] = sc
         out["data"] = [x * sc for x in out["data"]]
     if not mismatch and any(len(g) >= 2 for g in groups) and draw(st.integers(0, 3)) == 0:
@@ -256,4 +282,6 @@ def sym_labels(case):
         out.append("grps-dtype-" + case["gdtype"])
     if case.get("scale"):
         out.append(f"scale-{case['scale']:g}")
+    if case.get("near"):
+        out += [f"near-delta-{case['near']['delta']:g}", "near-in-" + case["near"]["which"]]
     return out
